@@ -61,7 +61,8 @@ def generate(prop, rng):
         lazy = rng.choice(prefixes)
     cfg = {
         "delete": rng.random() < 0.75,
-        "links": rng.choice([["copy"], ["hardlink", "copy"], ["symlink", "copy"], ["reflink", "copy"]]),
+        "links": rng.choice([["copy"], ["hardlink", "copy"], ["symlink", "copy"], ["reflink", "copy"],
+                             ["reflink", "symlink"], ["reflink", "hardlink", "symlink"]]),
         "reflink": gen.weighted(rng, [(5, "enotsup"), (3, "nocow"), (2, "cow")]),
         "tick_ns": rng.choice([1000, 1_000_000]),
         "with_state": rng.random() < 0.4,
@@ -278,8 +279,11 @@ def execute(sc, ctx):
 
     old = build_old()
     rmf = cfg.get("ws_rm_fault")
-    if rmf:
-        ctx.seam.faults = [{"at": ("unlink", "remove"), "match": "ws/", "sub": True, "nth": rmf["nth"], "exc": rmf["exc"],
+    if rmf and sc["prior"]:
+        # ONE file that is in the workspace beforehand cannot be removed (immutable / busy); files the
+        # operation creates itself are not affected
+        victim = sorted(sc["prior"])[rmf["nth"] % len(sc["prior"])]
+        ctx.seam.faults = [{"at": ("unlink", "remove"), "match": "ws/" + victim, "nth": 1, "exc": rmf["exc"],
                             "name": "ws_remove", "count": 1, "sticky": True}]
     try:
         diff = compare(old, idx, delete=cfg["delete"], relink=bool(cfg.get("relink")))
